@@ -92,10 +92,15 @@ def save(a, mode):
     f = io.StringIO()
     import contextlib
     with contextlib.redirect_stdout(io.StringIO()):
+        flag = mode == "fract"
+        if len(a) % 4 == 2:
+            flag = np.bool_(flag)           # the flag as a comparison of arrays yields it, e.g. np.isfinite(cell).all()
+        elif len(a) % 4 == 3:
+            flag = int(flag)                # ... or as 1 / 0
         if len(a) % 3 == 1:
-            a.save_p1_cif(f, "structure", mode == "fract")            # by position, documented order
+            a.save_p1_cif(f, "structure", flag)            # by position, documented order
         else:
-            a.save_p1_cif(f, use_fract_coords=(mode == "fract"))
+            a.save_p1_cif(f, use_fract_coords=flag)
     return f.getvalue()
 
 
@@ -292,6 +297,12 @@ def run_case(case, ctx):
         return
     compare_loaded(b, a, mode, fail)
     st.count("files_read_back")
+    # the kind of coordinates asked for is the kind written (whatever truthy / falsy form the flag was given in)
+    wrote_fract, wrote_cart = "_atom_site_fract_x" in t1, "_atom_site_Cartn_x" in t1
+    if (mode == "fract") != wrote_fract or (mode != "fract") != wrote_cart:
+        fail("%s coordinates were asked for (flag given as %s), the file has %s" % ("fractional" if mode == "fract" else "Cartesian", ["bool", "bool", "numpy.bool_", "int"][len(a) % 4],
+                                                                                   "fractional" if wrote_fract else ("Cartesian" if wrote_cart else "neither")), "coordinate_kind")
+    st.seen("flag_form", ["bool", "bool", "numpy.bool_", "int"][len(a) % 4])
     if case.get("many_atoms"):
         # only the round trip itself for the big structure (the second readers and reading variants are quadratic in the atom count)
         t2 = save(b, mode)
